@@ -19,7 +19,7 @@ RULE = ("random registration tables (<=4 routers, <=6 names, <=3 queues, overrid
 ASSUMPTIONS = ["Redis and RabbitMQ are wire-level fakes (RabbitMQ: requeue returns a message to its original position)", "virtual time",
                "own messages behind foreign ones must be executed within 20 s + 1 s per message of virtual time"]
 EVAL_COUNTER = "jobs_judged"
-REQUIRED = ["jobs_judged", "own_executed", "foreign_left_alone", "overrides_across_queues", "two_worker_runs", "tables_with_bystander_workers", "crowded_queues"]
+REQUIRED = ["jobs_judged", "own_executed", "foreign_left_alone", "overrides_across_queues", "two_worker_runs", "tables_with_bystander_workers", "crowded_queues", "pipeline_runs"]
 CASE_TIMEOUT = 150
 
 NAMES = ["alpha", "alpha2", "al", "beta", "gamma", "delta"]  # names that are prefixes of each other: topic filters must match whole names
@@ -46,6 +46,11 @@ def gen_cases(tier, seed):
             crowd = rnd.choice([10, 12, 21]) if i % 5 == 2 else None
             cases.append({"type": "table", "kind": kind, "regs": regs, "sub": sub, "crowd": crowd, "tl": 1000 if crowd else rnd.choice([1, 3, 1000]), "seed": rnd.randrange(10**6),
                           "latency": None if kind == "mem" else rnd.choice([None, 0.002])})
+        # pipelines: worker 1 idles next to messages of worker 2's topic; worker 2 starts later and its actor hands a follow-up
+        # job for worker 1's topic to the same queue (one foreign message leaves, one own arrives, between two looks)
+        for i in range({"quick": 3, "thorough": 12}[tier]):
+            cases.append({"type": "two", "chain": True, "kind": kind, "n": rnd.choice([1, 2, 3]), "tl": rnd.choice([1, 3, 1000]), "seed": rnd.randrange(10**6),
+                          "latency": None if kind == "mem" else rnd.choice([None, 0.002]), "lag": rnd.choice([0.0505, 0.2, 1.3])})
         for i in range({"quick": 4, "thorough": 30}[tier]):
             cases.append({"type": "two", "kind": kind, "n": rnd.choice([6, 14]), "tl": rnd.choice([1, 3, 1000]), "seed": rnd.randrange(10**6),
                           "latency": None if kind == "mem" else rnd.choice([None, 0.002])})
@@ -184,20 +189,31 @@ async def two_scenario(loop, case, out, stats, fps, samples):
             await conn2.connect()
         r1, r2 = w.router(), w.router()
         w.scripted_actor(r1, "alpha", queue="shared", tag="w1:alpha")
-        w.scripted_actor(r2, "beta", queue="shared", tag="w2:beta")
+        chain = case.get("chain")
+        if chain:
+            from rv.actors import register_chain_actor
+
+            register_chain_actor(r2, "beta", "shared", w.log, "w2:beta", "alpha", conn2)
+        else:
+            w.scripted_actor(r2, "beta", queue="shared", tag="w2:beta")
         await w.conn.message_broker.queue_declare("shared")
         from repid import Job, Worker
 
         jobs = {}
         for i in range(case["n"]):
-            name = rnd.choice(["alpha", "beta"])
+            name = rnd.choice(["alpha", "beta"]) if not chain else "beta"
             id_ = f"j{i:03d}"
             jobs[id_] = name
+            if chain:
+                jobs[id_ + "-f"] = "alpha"  # the follow-up its actor will enqueue
             await Job(name, id_=id_, queue="shared", args={"script": {"do": "ok", "d": 0.02}}, store_result=False, use_args_bucketer=False, _connection=w.conn).enqueue()
         sig = __import__("signal").SIGUSR1
         wk1 = Worker(routers=[r1], tasks_limit=case["tl"], graceful_shutdown_time=5.0, handle_signals=[sig], _connection=w.conn)
         wk2 = Worker(routers=[r2], tasks_limit=case["tl"], graceful_shutdown_time=5.0, handle_signals=[], _connection=conn2)
         t1 = loop.create_task(wk1.run())
+        if chain:
+            await asyncio.sleep(case["lag"])  # worker 1 has looked at the queue (in vain) many times by now
+            stats["pipeline_runs"] += 1
         t2 = loop.create_task(wk2.run())
         horizon = loop.time() + 25.0 + case["n"]
         while loop.time() < horizon and len({e["id"] for e in w.log.events if e.get("k") == "call" and e.get("op") == "ack" and e.get("depth") == 0}) < len(jobs):
@@ -214,6 +230,8 @@ async def two_scenario(loop, case, out, stats, fps, samples):
         for e in w.events("actor_start"):
             starts[e["id"]].append(e)
         ctx = "two-workers" if kind == "rabbit" else f"two-workers/tl={'inf' if case['tl'] >= 1000 else case['tl']}"
+        if chain and kind != "rabbit":  # (rabbit: the reject-requeue parking of two workers on one queue is a known finding, whatever the jobs)
+            ctx = "two-workers/follow-up-job"
         for id_, name in jobs.items():
             stats["jobs_judged"] += 1
             ss = starts.get(id_, [])
